@@ -369,6 +369,48 @@ class Hier:
             out |= self.behind_bare_base(j)
         return out
 
+    def lost_fields(self, i):
+        """(defining class, field) pairs visible from class i that adaptix is known to mis-resolve because it reads
+        an *inherited* ``__orig_bases__``: a class D written without any generic alias among its bases has no
+        ``__orig_bases__`` of its own, attribute lookup finds the one of the first MRO class O that has, so D is
+        resolved as if it derived from O's bases directly.  A member whose defining class K is not reachable from
+        O's bases (K = a bare generic base itself, a skipped class that re-annotates the member, the whole side of
+        a second ground base) keeps its raw annotation -- harmful when that still has type variables, or is a bare
+        generic class at top level while the member name also exists among O's bases' members.
+        (``"__orig_bases__" in vars(cls)`` is asked from Python, not from adaptix.)"""
+        out = set()
+        if self.kind == "typeddict" or not self.built:
+            return out
+        for d in [i, *self.ancestors(i)]:
+            cls = self.built["cls"][d]
+            if "__orig_bases__" in vars(cls) or not self.classes[d]["bases"]:
+                continue
+            owner = next((self._index[id(k)] for k in cls.__mro__[1:]
+                          if id(k) in self._index and "__orig_bases__" in vars(k)), None)
+            reach = set()
+            if owner is not None:
+                for b in self.classes[owner]["bases"]:
+                    reach |= {b["cls"], *self.ancestors(b["cls"])}
+            reach_names = {n for k in reach for n in self.own_names(k)}
+            for n, k in self.definers(d).items():
+                if k == d or k in reach:
+                    continue
+                ann = next(f["ann"] for f in self.classes[k]["fields"] if f["name"] == n)
+                if free_tvars(ann) or (ann[0] == "genbare" and self.params(ann[1]) and n in reach_names):
+                    out.add((k, n))
+        return out
+
+    def touches_lost_field(self, t):
+        for n in walk(t):
+            if n[0] in ("gen", "genbare"):
+                fields, defs, _ = self.expected_fields(n[1], None if n[0] == "genbare" and self.params(n[1])
+                                                       else (n[2] if n[0] == "gen" else []))
+                lost = self.lost_fields(n[1])
+                if any((defs[f], f) in lost for f in fields) or any(self.touches_lost_field(ft)
+                                                                   for ft in fields.values()):
+                    return True
+        return False
+
     def touches_bare_base(self, t):
         for n in walk(t):
             if n[0] in ("gen", "genbare"):
@@ -762,6 +804,8 @@ def _check_built(ctx, case, built):  # noqa: C901, PLR0912, PLR0915
     for t in exp.values():      # nested model types must be computable as well (may raise Skip)
         h.unspecified(t)
     tags = known_tags(h, case, exp, _envs)
+    if any((defs[n], n) in h.lost_fields(qi) or h.touches_lost_field(t) for n, t in exp.items()):
+        tags = sorted({*tags, "stale_orig_bases"})
     tagstr = "+".join(tags) or "-"
     cls = built["cls"][qi]
     labels_extra = []
@@ -832,14 +876,19 @@ def _check_built(ctx, case, built):  # noqa: C901, PLR0912, PLR0915
              labels=labels)
 
     tainted = h.behind_bare_base(qi)
+    lost = h.lost_fields(qi)
 
     def origin(n):
-        """Does the field's expected type come through a bare generic base (known defect class)?"""
+        """Does the field's expected type come through one of the structures adaptix is known to mis-resolve?"""
         if n is None:
             return "no_trail"
         if n not in exp:
             return "unknown_field"
-        return "via_unresolved_base" if (defs[n] in tainted or h.touches_bare_base(exp[n])) else "regular"
+        if defs[n] in tainted or h.touches_bare_base(exp[n]):
+            return "via_unresolved_base"
+        if (defs[n], n) in lost or h.touches_lost_field(exp[n]):
+            return "stale_orig_bases"
+        return "regular"
 
     def viol(vkind, discr, detail, field="-"):
         org = "-" if field == "-" else origin(field)
@@ -1206,7 +1255,7 @@ def st_case(draw):  # noqa: C901, PLR0912, PLR0915
     names_of = []      # all field names visible in a class (own + inherited)
     for i in range(ncls):
         # ---- parameters (a permutation of a subset of the pool; at most one TypeVarTuple by construction)
-        nparams = draw(st.sampled_from([2, 1, 2, 3, 1, 2, 0]))
+        nparams = draw(st.sampled_from([2, 1, 2, 3, 1, 2, 0] if i == 0 else [2, 1, 0, 3, 1, 2, 0, 2]))
         if diamond_mode and i == 0 and nparams == 0:
             nparams = 1
         nparams = min(nparams, len(tv_pool))
@@ -1231,7 +1280,7 @@ def st_case(draw):  # noqa: C901, PLR0912, PLR0915
             elif diamond_mode and i == 3:
                 chosen = [1, 2] if draw(st.booleans()) else [2, 1]
             else:
-                nb = 1 if kind == "namedtuple" else draw(st.sampled_from([1, 2, 1, 2, 1, 0, 3, 2]))
+                nb = 1 if kind == "namedtuple" else draw(st.sampled_from([1, 2, 1, 2, 0, 1, 3, 2, 0, 2]))
                 cands = list(range(i))
                 if kind == "namedtuple":
                     cands = [i - 1] if draw(st.booleans()) else cands
@@ -1255,6 +1304,11 @@ def st_case(draw):  # noqa: C901, PLR0912, PLR0915
                 bases.append({"cls": j, "args": args})
                 if len(bases) > 1 and not _symbolically_consistent(case_ctx, classes, params, bases):
                     bases.pop()      # this base would bind a shared ancestor differently: not a valid diamond
+        if not allow_known and kind != "typeddict" and len(bases) > 1 and not params \
+                and all(b["args"] is None for b in bases):
+            # no generic alias among the bases -> the class has no __orig_bases__ of its own and adaptix resolves
+            # it through the first base only (known finding): keep a single base
+            bases = bases[:1]
         my_anc = set()
         for b in bases:
             my_anc |= {b["cls"]} | anc[b["cls"]]
@@ -1297,6 +1351,10 @@ def st_case(draw):  # noqa: C901, PLR0912, PLR0915
                     name = f"f{i}{k}"
             used.add(name)
             ann = draw(st_open(case_ctx, params, 1, i, False, allow_known))
+            if not allow_known and name in inherited and ann[0] == "genbare" and case_ctx["params"][ann[1]]:
+                # an inherited member re-annotated with a *bare generic class* is lost again in a ground
+                # subclass (known finding, stale __orig_bases__) -> wrap it, the override itself stays
+                ann = ["opt", ann]
             fields.append({"name": name, "ann": ann})
         classes.append({"params": params, "bases": bases, "fields": fields, "explicit": explicit})
         anc.append(my_anc)
